@@ -5,7 +5,7 @@ is brought up to date with the source); `changed(prop)` (used by ./check) lists 
 recorded state.  Comments and whitespace are ignored, so reformatting or re-commenting a file does not count as a change."""
 import json, os, re, hashlib, sys
 ROOT = os.path.dirname(os.path.dirname(os.path.abspath(__file__)))
-REPO = "/repo"
+REPO = os.environ.get("VERIF_REPO") or "/repo"      # VERIF_REPO: mutation tooling only (scratch worktree)
 FP = os.path.join(ROOT, "source_fingerprints.json")
 
 
